@@ -53,14 +53,20 @@ class SmallCache(kvfile.KVFile):
         super().__init__(*a, **k)
 
 
-def run_sort_both(kind, vals, keyform, reverse, batch_size):
-    """resources=None: the first resource's key field holds text, the second's the given values."""
+def run_sort_both(kind, vals, keyform, reverse, batch_size, text_last=False):
+    """resources=None: the first resource's key field holds text, the second's the given values (text_last: the other
+    way round - the resource whose key field is text comes after the one under test)."""
     rows = [{'f': v, 'g': 1 if keyform == 'format2' else (len(vals) - i) % 2, 'id': i} for i, v in enumerate(vals)]
     first = [{'f': t, 'g': 1, 'id': 100 + i} for i, t in enumerate(['b', 'a', 'c'])]
-    st = mkstate([('first', [('f', 'string'), ('g', 'integer'), ('id', 'integer')], first),
-                  ('t', [('f', 'number' if kind == 'num' else 'string'), ('g', 'integer'), ('id', 'integer')], rows)])
+    res = [('first', [('f', 'string'), ('g', 'integer'), ('id', 'integer')], first),
+           ('t', [('f', 'number' if kind == 'num' else 'string'), ('g', 'integer'), ('id', 'integer')], rows)]
+    if text_last:
+        res.reverse()
+    st = mkstate(res)
     out = core.materialise(core.from_state(st), core.dataflows.sort_rows(build_key(keyform), resources=None, reverse=reverse,
                                                                       batch_size=batch_size))
+    if text_last:
+        out = core.State(out.desc, [out.rows[1], out.rows[0]])
     return rows, first, out
 
 
@@ -98,10 +104,10 @@ def classify(kind, x, y):
 def check(case):
     kind, keyform, reverse, bs, small = case['kind'], case['key'], case['reverse'], case['batch'], case['small']
     vals = [dec(v) for v in case['vals']]
-    label = 'sort_rows(key=%s, reverse=%s, batch_size=%d%s%s) on f=%r' % (keyform, reverse, bs, ', cache=2' if small else '', ', resources=None over a text-keyed and this resource' if case.get('both') else '', vals)
+    label = 'sort_rows(key=%s, reverse=%s, batch_size=%d%s%s) on f=%r' % (keyform, reverse, bs, ', cache=2' if small else '', (', resources=None over this resource and a text-keyed one after it' if case.get('both') == 'text-last' else ', resources=None over a text-keyed and this resource') if case.get('both') else '', vals)
     try:
         if case.get('both'):
-            rows, first, out = run_sort_both(kind, vals, keyform, reverse, bs)
+            rows, first, out = run_sort_both(kind, vals, keyform, reverse, bs, text_last=case['both'] == 'text-last')
             asc1 = sorted(first, key=lambda r: (model_key('text', keyform, r), r['id']))
             exp1 = list(reversed(asc1)) if reverse else asc1
             if [r['id'] for r in out.rows[0]] != [r['id'] for r in exp1]:
@@ -167,6 +173,9 @@ def cases(tier):
             if len(vals) in (2, 3) and kind == 'num':
                 for k in ('format', 'list1', 'list2'):
                     out.append({'kind': kind, 'vals': [enc(v) for v in vals], 'key': k, 'reverse': False, 'batch': 1000, 'small': False, 'both': True})
+                    if len(vals) == 2 or k == 'format':
+                        out.append({'kind': kind, 'vals': [enc(v) for v in vals], 'key': k, 'reverse': k == 'list1', 'batch': 1000,
+                                    'small': False, 'both': 'text-last'})
     return out
 
 
